@@ -290,6 +290,12 @@ pub fn lookup<const V: u32>(d: &mut Driver<V>, p: &Params, plan: &str, out: &str
             let sz = 8 * d.rng.range(3, 600) as usize;
             d.new_object(0, p.nslots - 1, 0, sz, 0, 8, 0, KIND_PLAIN);
         }
+        // a large object spanning chunks of its own: dropped below, so that a discontiguous space
+        // gives whole chunks back (chunk maps must not keep resolving them to the space)
+        if sems.contains(&2) && !is_nogc && !flag("nohuge") {
+            safepoint();
+            d.new_object(0, 0, 2, 6 << 20, 0, 8, 0, KIND_PLAIN);
+        }
         // drop every second root, collect
         for i in (0..p.nslots).step_by(2) {
             d.set_root(0, i, 0);
